@@ -19,6 +19,7 @@ class Params(dict):
         n_nodes=8, n_inputs=2, n_inits=2, n_outputs=2, p_if=0.15, p_call=0.1, n_functions=1, depth=2, typed=True,
         name_noise=0.0, unsorted=False, p_dup=0.2, p_const=0.15, p_multi=0.1, p_unused=0.1, p_optional=0.05, metadata=False,
         big_init=False, dup_inits=False, unused_function=False, ir_version=10, init_as_input=0.2, lazy_failing_init=False,
+        p_func_subgraph=0.35, annot_noise=0.0,
     )  # fmt: skip
 
     def __init__(self, **kw):
@@ -195,7 +196,8 @@ def gen_model(rng, p: Params | None = None) -> ir.Model:
         fin = [b.value(b.fresh("fx")) for _ in range(rng.choice([1, 2]))]
         saved = b.functions
         b.functions = list(functions)  # nesting: a function may call earlier ones
-        fg, _ = b.build_body([], 0, rng.randrange(1, 4), fin, 1, b.fresh("fbody"))
+        fdepth = 1 if (p["depth"] > 0 and rng.random() < p.get("p_func_subgraph", 0.35)) else 0
+        fg, _ = b.build_body([], fdepth, rng.randrange(1, 5), fin, 1, b.fresh("fbody"))
         b.functions = saved
         f = ir.Function("fdom", f"F{i}", "", graph=fg, attributes=[ir.Attr("alpha", ir.AttributeType.FLOAT, 1.0)] if rng.random() < 0.5 else [])
         fg.opset_imports[""] = 20
@@ -243,6 +245,19 @@ def gen_model(rng, p: Params | None = None) -> ir.Model:
         for v in b.all_values[:3]:
             v.metadata_props["vk"] = "vv"
             v.doc_string = "vdoc"
+    # annotation noise: some values lose their shape (or get a symbolic one) or their type altogether
+    an = p.get("annot_noise", 0.0)
+    if an:
+        for v in b.all_values:
+            x = rng.random()
+            if x < an / 3:
+                v.shape = None
+            elif x < 2 * an / 3:
+                if v.shape is not None and len(v.shape) == 2:
+                    v.shape = ir.Shape(["batch", 3]) if rng.random() < 0.5 else ir.Shape([None, 3])
+            elif x < an:
+                v.shape = None
+                v.type = None
     # naming noise: missing and duplicated names
     noise = p["name_noise"]
     if noise:
